@@ -320,6 +320,14 @@ class ExecGen:
                  'includes': scope_g.get('includes') if self.k.get('func_includes') else None}
         if r.random() < self.k.get('p_empty_function', 0.12):
             return ir.st_function(name, args, [], last)      # a legal function that starts no statement at all
+        if r.random() < self.k.get('p_tiny_function', 0.12):
+            # one-statement bodies: a lone return (with or without an expression), a lone tick, a lone jump
+            c = r.random()
+            one = ir.st_return(self.any_expr(scope)) if c < 0.5 else ir.st_return() if c < 0.65 else \
+                self.tick() if c < 0.85 else ir.st_return(call('hostTick', s(f'thunk-{name}')))
+            if c >= 0.85:
+                self.used_hosts.add('hostTick')
+            return ir.st_function(name, args if r.random() < 0.5 else [], [one], last and bool(args))
         body = [self.tick()]
         if shadow is not None:
             self.used_hosts.add('hostObserve')
@@ -541,7 +549,10 @@ class ExecGen:
                 plan['url_kind'] = None
             c = r.random()
             if c < 0.3:
-                plan['system_prefix'] = r.choice(['/sys/inc/', 'http://sys.example/inc/', 'sysrel/'])
+                # (an empty prefix and prefixes without a final separator are configured prefixes like any other:
+                # the reference is resolved against them, not against the including file)
+                plan['system_prefix'] = r.choice(['/sys/inc/', 'http://sys.example/inc/', 'sysrel/', '/sys/inc/', 'sysrel/',
+                                                  '', 'plainprefix', 'pre/fix'])
             self.k['system_prefix'] = plan.get('system_prefix')
             scope['includes'] = self.make_vfs(main_location, 0, scope)
             if k.get('fetch_probes'):
